@@ -42,7 +42,7 @@ func logSum(dir string) string {
 }
 
 func runFlockChild(a []string) {
-	o := klevdb.Options{Readonly: a[1] == "1", Check: a[2] == "1", KeyIndex: true, TimeIndex: true}
+	o := klevdb.Options{Readonly: a[1] == "1", Check: a[2] == "1", Recover: a[2] == "2", KeyIndex: true, TimeIndex: true}
 	l, err := klevdb.Open(a[0], o)
 	if err != nil {
 		fmt.Println("err " + errClass(err))
@@ -83,6 +83,7 @@ func runFlock(a []string) {
 	}
 	defer closeAll()
 	var savedIdx []byte
+	tornLen := int64(-1)
 	var idxPath string
 	for sc.Scan() {
 		line := strings.TrimSpace(sc.Text())
@@ -96,6 +97,7 @@ func runFlock(a []string) {
 		case "case":
 			closeAll()
 			savedIdx = nil
+			tornLen = -1
 			n++
 			dir = filepath.Join(root, fmt.Sprintf("f%d", n))
 			os.MkdirAll(dir, 0700)
@@ -133,7 +135,7 @@ func runFlock(a []string) {
 				}
 				break
 			}
-			l, err := klevdb.Open(dir, klevdb.Options{Readonly: f[2] == "1", Check: f[3] == "1", KeyIndex: true, TimeIndex: true, Rollover: 120})
+			l, err := klevdb.Open(dir, klevdb.Options{Readonly: f[2] == "1", Check: f[3] == "1", Recover: f[3] == "2", KeyIndex: true, TimeIndex: true, Rollover: 120})
 			if err != nil {
 				res = "err " + errClass(err)
 			} else {
@@ -199,6 +201,25 @@ func runFlock(a []string) {
 			} else if savedIdx != nil {
 				os.WriteFile(idxPath, savedIdx, 0600)
 				savedIdx = nil
+			}
+		case "tear":
+			// a torn tail on the head log file (half a record of garbage), or its removal
+			segs := listSegs(dir)
+			if len(segs) == 0 {
+				res = "skip"
+				break
+			}
+			lp := segs[len(segs)-1].Log
+			if f[1] == "1" && tornLen < 0 {
+				if fi, err := os.Stat(lp); err == nil {
+					tornLen = fi.Size()
+					fh, _ := os.OpenFile(lp, os.O_WRONLY|os.O_APPEND, 0600)
+					fh.Write([]byte{1, 2, 3, 4, 5, 6, 7, 8, 9, 10, 11, 12, 13, 14, 15, 16, 17, 18, 19, 20})
+					fh.Close()
+				}
+			} else if f[1] == "0" && tornLen >= 0 {
+				os.Truncate(lp, tornLen)
+				tornLen = -1
 			}
 		case "rmdir":
 			if f[1] == "1" {
